@@ -201,28 +201,37 @@ def rule_r4(chk):
     sm = chk.repo.mod("irispie.sources")
     f = sm.func("ModelSource.from_string")
     chk.saw(sm, "ModelSource.from_string")
-    gets = {}
-    for n in ast.walk(f):
-        if isinstance(n, ast.Call) and dotted(n.func) == "parsed_content.get" and n.args and isinstance(n.args[0], ast.Constant):
-            gets[n.args[0].value] = n
-    for k, n in sorted(gets.items()):
-        chk.ob("C04-R4", f"sources.ModelSource.from_string[get {k}]", k in kw_lits,
-               f"key {k!r} {'is' if k in kw_lits else 'is NOT'} a keyword literal of the grammar (a typo drops the block silently)", sm.loc(n))
-    need = [lits[r] for r in alts["qty_keyword"]] + [lits[r] for r in ("transition_equations_keyword", "measurement_equations_keyword", "steady_autovalues_keyword")] \
-        + [lits["log_keyword"], lits["all_but_keyword"]]
-    for k in need:
-        chk.ob("C04-R4", f"sources.ModelSource.from_string[reads {k}]", k in gets,
-               f"grammar block {k!r} {'is' if k in gets else 'is NOT'} consumed by ModelSource.from_string", sm.loc(f))
-    # keyword args of from_lists: name with _ -> - equals key
-    calls = [n for n in ast.walk(f) if isinstance(n, ast.Call) and dotted(n.func) == "klass.from_lists"]
-    if len(calls) != 1:
-        raise AnalysisError("anchor vanished: klass.from_lists call in ModelSource.from_string")
-    for kw in calls[0].keywords:
-        v = kw.value
-        if isinstance(v, ast.Call) and dotted(v.func) == "parsed_content.get":
-            key = v.args[0].value
-            chk.ob("C04-R4", f"sources.ModelSource.from_string[{kw.arg}]", key == kw.arg.replace("_", "-"),
-                   f"{kw.arg}=parsed_content.get({key!r})", sm.loc(kw.value))
+    # by finite evaluation with a recording stand-in for the parsed content: which block keys are asked for, and which keyword of
+    # from_lists each block's content reaches
+    from .. import fin as _fin
+    asked, received = [], {}
+    content = _fin.FinObj(get=lambda k, *d: asked.append(k) or (("BLOCK", k) if k not in ("all-but", "log-variables") else ()))
+    klass_ = _fin.FinObj(from_lists=lambda **kw: received.update(kw) or "SOURCE")
+    funcs_ = _fin.module_funcs(sm, {"_preparser.from_string": lambda *a_, **k_: ("PREPARSED", {"info": 1}), "_models.from_string": lambda *a_, **k_: content,
+                                    "_is_all_but_present": lambda x: bool(x)})
+    try:
+        _fin.run_function(f, {params(f)[0]: klass_, params(f)[1]: "SOURCE TEXT", "context": None, "save_preparsed": ""}, funcs_, _fin.module_constants(sm))
+    except (_fin.NotFinite, _fin.Raised, TypeError, AttributeError, KeyError) as ex:
+        chk.undecided("C04-R4", "sources.ModelSource.from_string[blocks]", f"not finitely evaluable: {type(ex).__name__}: {ex}", sm.loc(f))
+        asked = None
+    if asked is not None:
+        for k in sorted(set(asked)):
+            chk.ob("C04-R4", f"sources.ModelSource.from_string[get {k}]", k in kw_lits,
+                   f"key {k!r} {'is' if k in kw_lits else 'is NOT'} a keyword literal of the grammar (a typo drops the block silently)", sm.loc(f), sure=True)
+        need = [lits[r] for r in alts["qty_keyword"]] + [lits[r] for r in ("transition_equations_keyword", "measurement_equations_keyword", "steady_autovalues_keyword")] \
+            + [lits["log_keyword"], lits["all_but_keyword"]]
+        for k in need:
+            chk.ob("C04-R4", f"sources.ModelSource.from_string[reads {k}]", k in asked,
+                   f"grammar block {k!r} {'is' if k in asked else 'is NOT'} consumed by ModelSource.from_string", sm.loc(f), sure=True)
+        # keyword args of from_lists: the content of block some-block arrives as some_block
+        for kw_, v_ in sorted(received.items()):
+            if isinstance(v_, tuple) and len(v_) == 2 and v_[0] == "BLOCK":
+                chk.ob("C04-R4", f"sources.ModelSource.from_string[{kw_}]", v_[1] == kw_.replace("_", "-"),
+                       f"{kw_}=parsed_content.get({v_[1]!r})", sm.loc(f), sure=True)
+        for k in need:
+            if k not in ("log-variables", "all-but"):
+                chk.ob("C04-R4", f"sources.ModelSource.from_string[{k} reaches from_lists]", received.get(k.replace("-", "_")) == ("BLOCK", k),
+                       f"from_lists receives {k.replace('-', '_')}={received.get(k.replace('-', '_'))!r}", sm.loc(f), sure=True)
     # visitor bindings
     vis = mm.cls("_Visitor")
     bound = set()
